@@ -297,10 +297,10 @@ def ctx_stream(tier, seed, *, scale=1.0, with_wide=True, max_rnd=None):
     """Deterministic list of table cases for (tier, seed)."""
     if tier == 'quick':
         yield from exh(3, 3)
-        yield from rnd(seed, int(900 * scale), *(max_rnd or (8, 8)))
-        yield from struct(seed, [2, 3, 4, 5])
+        yield from rnd(seed, int(3200 * scale), *(max_rnd or (9, 9)))
+        yield from struct(seed, [2, 3, 4, 5, 6])
         if with_wide:
-            yield from wide(seed, int(24 * scale))
+            yield from wide(seed, int(48 * scale))
     else:
         yield from exh(3, 3)
         yield from exh(0, 0, sizes=[(3, 4), (4, 3)])
